@@ -44,7 +44,7 @@ Definition exn_code (e : exn) : N :=
   match e with
   | ValueError => 0 | UnicodeEncodeError => 1 | BinasciiError => 2 | StructError => 3 | RuntimeError => 4
   | AssertionError => 5 | TypeError => 6 | PlainException => 7 | KeyError => 8 | IndexError => 9
-  | OverflowError => 10 | OracleMissing => 11 | OtherExn => 12
+  | OverflowError => 10 | OracleMissing => 11 | OtherExn => 12 | AttributeError => 13
   end.
 Definition res_eqb {A} (eqA : A -> A -> bool) (a b : result A) : bool :=
   match a, b with
@@ -65,6 +65,9 @@ Section WithTables.
     scram_on_challenge (look1 (t_h256 tb)) (look2 (t_hmac256 tb)) (look4 (t_pbkdf2 tb)) (look4 (t_argon tb))
                        (lookr (t_sasl tb)) (look1 (t_repr tb)).
   Definition r_scram_welcome := scram_on_welcome (look2 (t_hmac256 tb)).
+  Definition r_scram_run :=
+    scram_obj_run (look1 (t_h256 tb)) (look2 (t_hmac256 tb)) (look4 (t_pbkdf2 tb)) (look4 (t_argon tb))
+                  (lookr (t_sasl tb)) (look1 (t_repr tb)).
   Definition r_scram_cred := derive_scram_credential (look1 (t_h256 tb)) (look2 (t_hmac256 tb)) (look4 (t_argon tb)).
   Definition r_cs_sign := cs_sign_challenge (look2 (t_sign tb)).
 End WithTables.
@@ -79,6 +82,9 @@ Inductive auth_case :=
   | CScramChallenge (tb : tables) (decode_salt : bool) (password authid client_nonce : str) (x : scram_extra)
                     (expected : result (bytes * bytes * bytes))      (* reply, _auth_message, _salted_password *)
   | CScramWelcome (tb : tables) (auth_message salted : bytes) (sig : pyval) (expected : result bool) (* accepted? *)
+  | CScramHistory (tb : tables) (decode_salt : bool) (password authid : str) (ops : list scram_op)
+                  (expected : list (result (list N)))                (* one outcome per call, see scram_obj_step *)
+                  (expected_state : option bytes * option bytes)     (* _auth_message, _salted_password afterwards *)
   | CScramCred (tb : tables) (password : str) (salt : bytes) (expected : result (bytes * bytes))
   | CCsSign (tb : tables) (seed : bytes) (challenge : pyval) (cid : option bytes) (cid_type : option str)
             (expected : result str)
@@ -96,6 +102,15 @@ Definition eqb3 (a b : bytes * bytes * bytes) : bool :=
 Definition eqb2 (a b : bytes * bytes) : bool :=
   let '(a1, a2) := a in let '(b1, b2) := b in list_eqb a1 b1 && list_eqb a2 b2.
 
+Fixpoint list_res_eqb (a b : list (result (list N))) : bool :=
+  match a, b with
+  | [], [] => true
+  | x :: a', y :: b' => res_eqb list_eqb x y && list_res_eqb a' b'
+  | _, _ => false
+  end.
+Definition opt_eqb (a b : option bytes) : bool :=
+  match a, b with Some x, Some y => list_eqb x y | None, None => true | _, _ => false end.
+
 Definition auth_case_ok (c : auth_case) : bool :=
   match c with
   | CCra tb s sa ch e => res_eqb list_eqb (r_cra tb s sa ch) e
@@ -110,6 +125,9 @@ Definition auth_case_ok (c : auth_case) : bool :=
   | CScramWelcome tb am sp sig e =>
     res_eqb Bool.eqb (map_res (fun v => match v with Accept => true | Deny => false end)
                               (r_scram_welcome tb {| ss_auth_message := am; ss_salted_password := sp |} sig)) e
+  | CScramHistory tb ds pw aid ops e est =>
+    let '(o, outs) := r_scram_run tb ds pw aid scram_fresh ops in
+    list_res_eqb outs e && opt_eqb (so_am o) (fst est) && opt_eqb (so_sp o) (snd est)
   | CScramCred tb pw salt e => res_eqb eqb2 (r_scram_cred tb pw salt) e
   | CCsSign tb seed ch cid ct e => res_eqb list_eqb (r_cs_sign tb seed ch cid ct) e
   | CXor a b e => res_eqb list_eqb (xor a b) e
